@@ -13,6 +13,9 @@ package certwatcher
 import (
 	"crypto/tls"
 	"errors"
+	"io/fs"
+	"os"
+	"time"
 
 	"github.com/fsnotify/fsnotify"
 )
@@ -24,6 +27,39 @@ var c14 struct {
 	nextMarker byte
 	loadFails  bool
 	addFails   bool
+}
+
+// The file system as far as the environment contract describes it. The code under test on the
+// unchanged tree never looks at it; a change that consults the file system before deciding whether
+// to reload does, and then has to be right for both layouts the property names: regular files
+// (written in place or renamed over: the path's own inode data changes with every update) and
+// symlinked paths (Kubernetes-style directory swap: the link itself never changes, what it points
+// to does). c14fs.version counts the updates that caused the events the harness delivers.
+var c14fs struct {
+	symlinks bool
+	version  int64
+}
+
+type c14Info struct{ mtime, size int64 }
+
+func (i c14Info) Name() string       { return "tls" }
+func (i c14Info) Size() int64        { return i.size }
+func (i c14Info) Mode() fs.FileMode  { return 0o644 }
+func (i c14Info) ModTime() time.Time { return time.Unix(i.mtime, 0) }
+func (i c14Info) IsDir() bool        { return false }
+func (i c14Info) Sys() any           { return nil }
+
+//verif:replace os.Stat
+func c14Stat(name string) (os.FileInfo, error) {
+	return c14Info{mtime: 1700000000 + c14fs.version, size: 1200 + c14fs.version%2}, nil
+}
+
+//verif:replace os.Lstat
+func c14Lstat(name string) (os.FileInfo, error) {
+	if c14fs.symlinks {
+		return c14Info{mtime: 1600000000, size: 17}, nil // the link, not what it points to
+	}
+	return c14Stat(name)
 }
 
 var errC14Load = errors.New("tls: failed to find any PEM data / private key does not match public key (stub)")
@@ -67,6 +103,7 @@ func c14WatcherClose(w *fsnotify.Watcher) error {
 
 func c14Reset() {
 	c14.loads, c14.adds, c14.order, c14.nextMarker, c14.loadFails, c14.addFails = 0, nil, nil, 0, false, false
+	c14fs.symlinks, c14fs.version = vBool("fs.watchedPathsAreSymlinks"), 0
 }
 
 func VerifC14_event() {
@@ -85,6 +122,9 @@ func VerifC14_event() {
 	name := []string{"/etc/tls/tls.crt", "/etc/tls/tls.key"}[vRange("event.file", 0, 1)]
 	c14.loadFails = vBool("reload.fails")
 	c14.addFails = vBool("rewatch.fails")
+	if op&(fsnotify.Write|fsnotify.Create|fsnotify.Remove) != 0 {
+		c14fs.version++ // the update that caused the event
+	}
 	if vCatch(func() { cw.handleEvent(fsnotify.Event{Name: name, Op: op}) }) {
 		vFail("handle-event-no-panic")
 		return
